@@ -653,7 +653,27 @@ func (st *State) execInstr(in ssa.Instruction) {
 		if p.K == KInt {
 			st.nilCheck(p.T, "store")
 		}
+		var before map[string]string
+		spill := false
+		if prm, ok := x.Val.(*ssa.Parameter); ok && st.fr.caller == nil && st.old != nil {
+			if al, ok := x.Addr.(*ssa.Alloc); ok && al.Comment == prm.Name() && x.Block().Index == 0 {
+				// a parameter spilled to its cell at entry (captured by a closure): the cell holds the
+				// parameter's value in the pre-state too, so old(w.f) reads w rather than an uninitialised cell
+				spill = true
+				before = make(map[string]string, len(st.heaps))
+				for k, v := range st.heaps {
+					before[k] = v
+				}
+			}
+		}
 		st.derefStore(p, elem, st.val(x.Val))
+		if spill {
+			for k, v := range st.heaps {
+				if before[k] != v { // differs from the entry heap only at fresh cells (above the entry watermark)
+					st.old[k] = v
+				}
+			}
+		}
 	case *ssa.Send:
 		st.g.note("channel sends are not executed (channel contracts / fork-join abstraction)")
 	case *ssa.Go:
